@@ -209,6 +209,20 @@ class SpanWrappingMatcher(wrappers.WrappingMatcher):
     def _replacement(self, newchild):
         return self.__class__(newchild)
 
+    def replace(self, minquality=0):
+        # The spans are the child's. A child rewritten against a quality
+        # threshold (a union that drops or demotes a clause which cannot reach
+        # the threshold on its own) reports other spans, and a document that
+        # qualifies through the spans of that clause would be lost although
+        # its score is above the threshold: only the rewrite without a
+        # threshold, which keeps the child's list, is passed down
+        if not self.is_active():
+            return mcore.NullMatcher()
+        r = self.child.replace()
+        if r is not self.child:
+            return self._replacement(r)
+        return self
+
     def _find_next(self):
         if not self.is_active():
             return
